@@ -6,7 +6,12 @@ cd /verif
 # the lanes work from a frozen copy of /verif, so that the harness can be edited while the regression runs
 rm -rf /root/verif-snap; rsync -a --exclude harness/target --exclude replay --exclude .git /verif/ /root/verif-snap/
 export MUTBENCH_SRC=/root/verif-snap
-ls seeded | sort > /root/mutbench-all.list
+python3 - <<'PY' > /root/mutbench-all.list
+import json,glob
+for f in sorted(glob.glob('/verif/seeded/*/meta.json')):
+    m=json.load(open(f))
+    if not m.get('obsolete_on_head'): print(m['id'])
+PY
 rm -f /root/mutbench-all.out
 lane() {
   L=$1
